@@ -2,7 +2,7 @@
 //! C01/C06: entry + header codecs (replay path) vs the reference layout;
 //! C02/C06/C07: `Oplog::open` on images built from the crate's own `StoreInfo`s and from the
 //! reference encoder, with crash / torn-write cut points.
-#![allow(unused_imports, dead_code)]
+#![allow(unused_imports, dead_code, future_incompatible, rust_2018_idioms, unsafe_code, missing_docs, missing_debug_implementations, unreachable_pub, clippy::all)]
 use super::entry::{Entry, EntryTreeUpgrade};
 use super::header::{Header, HeaderTree};
 use super::*;
